@@ -213,8 +213,13 @@ void harness(void) { ghost_havoc(); OneShotEvent* e; g_my_call_done = 0; Wait(e)
         (r'auto\s+waiter\s*=\s*MakeShared<TimedWaiter>\(\s*(\d+)\s*\)\s*;', r'TimedWaiter* waiter = TW_MakeShared(\1);', 1),
         (r'TryAdd\(\s*\*\s*waiter\s*\)', 'TryAdd(&waiter->job)', 1),
         (r'waiter->Make\(\)', 'TW_Make(waiter)', 1),
-        (r'return\s+waiter->Wait\(\s*token\s*,\s*timeout\s*\)\s*;', '{ int vf_r = TW_Wait(waiter, token); TW_DecRef(waiter); /* ~IntrusivePtr */ return vf_r; }', 1),
-        (r'delete\s+waiter\.Release\(\)\s*;', 'TW_Delete(waiter); waiter = 0;', 0)]).rewrite(b_tw.text)
+        (r'waiter->IncRef\(\)', 'TW_IncRef(waiter)', 0),
+        (r'waiter->DecRef\(\)', 'TW_DecRef(waiter)', 0),
+        (r'waiter->Wait\(\s*token\s*,\s*timeout\s*\)', 'TW_Wait(waiter, token)', 1),
+        # the local IntrusivePtr's destructor runs at every return (after the returned expression is evaluated) unless the pointer was Release()d
+        (r'\breturn\s+([^;]+);', r'{ int vf_r = (\1); if (waiter) TW_DecRef(waiter); /* ~IntrusivePtr */ return vf_r; }', 1),
+        (r'delete\s+waiter\.Release\(\)\s*;', 'TW_Delete(waiter); waiter = 0;', 0),
+        (r'waiter\.Release\(\)', 'TW_Release(&waiter)', 0)]).rewrite(b_tw.text)
     src = EV + '''
 typedef struct TimedWaiter { Job job; int ev; } TimedWaiter;
 struct { long refs; unsigned char alive; unsigned char event_owns; unsigned long allocs; } tw;
@@ -227,7 +232,9 @@ int TW_Wait(TimedWaiter* w, int token) __CPROVER_requires(tw.alive && g.linked) 
 /* one reference dropped; the object dies with the last one (the event's Call drops the other) */
 void TW_DecRef(TimedWaiter* w) __CPROVER_requires(tw.alive && tw.refs >= 1) __CPROVER_assigns(tw.refs, tw.alive) __CPROVER_ensures(tw.refs == OLD(tw.refs) - 1 && tw.alive == (tw.refs > 0 || tw.event_owns));
 void TW_Delete(TimedWaiter* w) __CPROVER_requires(tw.alive && !g.linked) __CPROVER_assigns(tw.refs, tw.alive) __CPROVER_ensures(tw.refs == 0 && tw.alive == 0);
-''' + contract_try.replace('__CPROVER_requires(__CPROVER_is_fresh(self, sizeof(*self)) && __CPROVER_is_fresh(job, sizeof(*job)))\n', '').replace('g.me == (uintptr_t)job)', 'tw.alive)') + ''';
+void TW_IncRef(TimedWaiter* w) __CPROVER_requires(tw.alive && tw.refs >= 1 && tw.refs < 8) __CPROVER_assigns(tw.refs) __CPROVER_ensures(tw.refs == OLD(tw.refs) + 1);
+TimedWaiter* TW_Release(TimedWaiter** w) __CPROVER_requires(__CPROVER_r_ok(w, sizeof(*w))) __CPROVER_assigns(*w) __CPROVER_ensures(RET == OLD(*w) && *w == 0);
+''' + contract_try.replace('__CPROVER_requires(__CPROVER_is_fresh(self, sizeof(*self)) && __CPROVER_is_fresh(job, sizeof(*job)))\n', '').replace('g.me == (uintptr_t)job)', 'tw.alive)\n/* C03,C16: the event may run the waiter\'s Call (Set; DecRef) as soon as it is published, so BOTH owners\' references are counted before TryAdd */\n__CPROVER_requires(tw.refs == 2)') + ''';
 int TimedWait(OneShotEvent* self, int timeout)
 __CPROVER_requires(__CPROVER_is_fresh(self, sizeof(*self)) && g.role == ROLE_ADD && INV(self->_head) && !g.linked && !g.saw_done && tw.allocs == 0 && g_set_seen == 0)
 __CPROVER_assigns(self->_head, g, g_me_node, tw, g_set_seen)
@@ -240,7 +247,7 @@ __CPROVER_ensures(tw.allocs == 1)
 void harness(void) { ghost_havoc(); OneShotEvent* e; tw.allocs = 0; g_set_seen = 0; int r = TimedWait(e, 0);
   if (!g.linked) VF_CANARY("late arrival"); else if (r) VF_CANARY("released in time"); else VF_CANARY("timed out"); }
 '''
-    out.append(Job('event/TimedWait', props, src, 'harness', enforce='TimedWait', replace=['TryAdd', 'TW_MakeShared', 'TW_Make', 'TW_Wait', 'TW_DecRef', 'TW_Delete'],
+    out.append(Job('event/TimedWait', props, src, 'harness', enforce='TimedWait', replace=['TryAdd', 'TW_MakeShared', 'TW_Make', 'TW_Wait', 'TW_DecRef', 'TW_Delete', 'TW_IncRef', 'TW_Release'],
                    funcs=[b_tw], canaries=3, expect=[r'postcondition'], meta={'fn': 'TimedWait'}))
     # ---- Waiter::Call / TimedWaiter::Call ------------------------------------------------------------------------
     for nm, b, post in (('Waiter.Call', b_wc, 'g_sets == 1 && g_decrefs == 0'), ('TimedWaiter.Call', b_twc, 'g_sets == 1 && g_decrefs == 1 && g_set_before_decref')):
@@ -505,7 +512,7 @@ void harness(void) { MutexEvent* e; g_lock_held = 1; g_reset_allowed = 0; Wait(e
 '''
     out.append(Job('mutex_event/Wait', props, src, 'harness', enforce='Wait', loop_contracts=True, funcs=[b_wait], expect=[r'postcondition', r'invariant after step|loop_invariant_step'], meta={'fn': 'MutexEvent::Wait'}))
     c = Rewriter('MutexEvent::Set', omethods=['notify_one']).rewrite(expand_lock('MutexEvent::Set', b_set.text))
-    c = c.replace('self->_is_ready = true;', '{ self->_is_ready = true; g.set_done = 1; /* ghost: linearisation point of Set */ }')
+    c = c.replace('self->_is_ready = true;', '{ __CPROVER_assert(g_lock_held == 1, "C11,C16: the ready flag is written only while holding the event\\\'s mutex (the waiter checks it under the mutex and may destroy the event - it lives on its stack - as soon as it has unlocked: a setter that still has to take the mutex would touch a dead event)"); self->_is_ready = true; g.set_done = 1; /* ghost: linearisation point of Set */ }')
     src = MUTEX_EVENT + '''void Set(MutexEvent* self)
 __CPROVER_requires(__CPROVER_is_fresh(self, sizeof(*self)) && g_lock_held == 0 && g_notify_one == 0)
 __CPROVER_assigns(self->_is_ready, g, g_self, g_lock_held, g_notify_one, g_notified_under_lock)
